@@ -61,6 +61,8 @@ REGRESSIONS = (
      "CIMObject computed before the default namespace is filled in"),
     ("WireOpsImplLegacyOrder.cfg",
      "VALUE.NAMEDINSTANCE with INSTANCE before INSTANCENAME"),
+    ("WireOpsImplLegacyNsDrop.cfg",
+     "tocimxml() of object names skips empty namespace components"),
 )
 
 
@@ -132,6 +134,20 @@ class Conc:
         return "".join(ch.upper() if r.random() < 0.5 else ch for ch in s)
 
     def ns(self, token):
+        """Namespace string for a namespace id of WireOpsImplOps!NsTok.
+        ..e: the empty namespace (given as '' or as slashes only, which the
+        setters strip); ..g: 'root//<last>' (an empty inner component)."""
+        # (the namespace of an enumeration context is not stripped by pywbem:
+        # no surrounding slashes there, they would be components)
+        strips = token[0] != "c"
+        if token[1:] == "e":
+            return self.r.choice(["", "", "/", "//"]) if strips else ""
+        if token[1:] == "g":
+            last = {"d": "nsd", "a": "nsa", "o": "nso", "c": "nsc",
+                    "r": "nsr"}[token[0]]
+            s = self.rc("root") + "//" + self.rc(last)
+            return self.r.choice(["%s", "%s", "/%s", "%s/"]) % s \
+                if strips else s
         base = {"d1": "nsd", "d2": "root/nsd", "a1": "nsa", "a2": "root/nsa",
                 "a2s": "root/nsa", "o": "root/nso", "c": "root/nsc",
                 "r": "root/nsr"}[token]
@@ -140,12 +156,21 @@ class Conc:
             s = self.r.choice(["/%s", "%s/", "/%s/", "//%s//"]) % s
         return s
 
+    @staticmethod
+    def ons(x):
+        """namespace id of an object name (WireOpsImplOps!ONs)"""
+        return "oe" if "nse" in x else "og" if "nsg" in x else "o"
+
     def refname(self, form="in"):
         n = CIMInstanceName(self.rc("refcls"),
                             keybindings={self.rc("rk"): "refval"})
         if form in ("l", "h"):
             n.namespace = self.ns("r")
-        if form == "h":
+        if form in ("le", "he"):
+            n.namespace = self.ns("re")
+        if form == "lg":
+            n.namespace = self.ns("rg")
+        if form in ("h", "he"):
             n.host = self.rc("hostr")
         return n
 
@@ -174,24 +199,26 @@ class Conc:
             return self.refname("l")
         if kind == "refh":
             return self.refname("h")
+        if kind in ("refle", "reflg", "refhe"):
+            return self.refname(kind[3:])
         raise vlib.MachineryError("unknown key kind %r" % kind)
 
-    def instname(self, cls, form, kb):
+    def instname(self, cls, form, kb, x=()):
         names = ["k1", "k2", "k3"]
         kbs = [(self.rc(names[i]), self.keyval(k)) for i, k in enumerate(kb)]
         n = CIMInstanceName(self.rc(cls), keybindings=kbs)
         if form in ("in_ns", "in_ns_h"):
-            n.namespace = self.ns("o")
+            n.namespace = self.ns(self.ons(x))
         if form == "in_ns_h":
             n.host = self.rc("hosto")
         return n
 
-    def classname(self, cls, form):
+    def classname(self, cls, form, x=()):
         if form == "str":
             return self.rc(cls)
         n = CIMClassName(self.rc(cls))
         if form in ("cn_ns", "cn_ns_h"):
-            n.namespace = self.ns("o")
+            n.namespace = self.ns(self.ons(x))
         if form == "cn_ns_h":
             n.host = self.rc("hosto")
         return n
@@ -293,6 +320,8 @@ class Conc:
                                type="reference")
         if sh == "refq":
             return CIMProperty(n, self.refname(), qualifiers=q1)
+        if sh in ("refle", "reflg"):
+            return CIMProperty(n, self.refname(sh[3:]))
         raise vlib.MachineryError("unknown property shape %r" % sh)
 
     QSHAPES = ("q", "qb", "qu", "qa", "qan", "qnull", "qfl")
@@ -307,7 +336,7 @@ class Conc:
     def instance(self, a):
         path = None
         if a["f"] != "nopath":
-            path = self.instname("icls", a["f"], a["kb"])
+            path = self.instname("icls", a["f"], a["kb"], a["x"])
         return CIMInstance(self.rc("icls"), properties=self.props(a["pr"]),
                            qualifiers=self.objquals(a["x"]), path=path)
 
@@ -420,6 +449,11 @@ class Conc:
             return self.refname("l"), "reference", False, None
         if sh == "refc":
             return CIMClassName(self.rc("refcls")), "reference", False, None
+        if sh in ("refle", "reflg"):
+            return self.refname(sh[3:]), "reference", False, None
+        if sh == "refcle":
+            return CIMClassName(self.rc("refcls"), namespace=self.ns("re")), \
+                "reference", False, None
         if sh == "ei":
             return self.emb_inst(), "string", False, "instance"
         if sh == "eo":
@@ -458,13 +492,13 @@ class Conc:
             v = [self.rc(x) if x else x for x in seq[f]]
             return tuple(v) if r.random() < 0.5 else v
         if k == "cn":
-            return self.classname(p["v"], f)
+            return self.classname(p["v"], f, a["x"])
         if k == "in":
-            return self.instname(p["v"], f, a["kb"])
+            return self.instname(p["v"], f, a["kb"], a["x"])
         if k == "on":
             if f in ("in", "in_ns", "in_ns_h"):
-                return self.instname(p["v"], f, a["kb"])
-            return self.classname(p["v"], f)
+                return self.instname(p["v"], f, a["kb"], a["x"])
+            return self.classname(p["v"], f, a["x"])
         if k in ("inst", "minst", "xinst"):
             return self.instance(a)
         if k == "cls":
@@ -472,7 +506,8 @@ class Conc:
         if k == "qd":
             return self.qualdecl(a)
         if k == "ctx":
-            return (r.choice(["ctxval", "ctx<1>", "500#"]), self.ns("c"))
+            return (r.choice(["ctxval", "ctx<1>", "500#"]),
+                    self.ns({"ctxe": "ce", "ctxg": "cg"}.get(f, "c")))
         raise vlib.MachineryError("unknown parameter kind %r" % k)
 
     def call(self, case):
@@ -553,7 +588,8 @@ def invoke(op, pos, kw, ckw, before=None):
 FREE_SHAPE = {"op": "free", "pull": "na", "dflt": "d2",
               "ns": {"f": "na", "kb": [], "pr": [], "x": []}, "args": []}
 NO_HDR = {"mhas": False, "mok": False, "ohas": False, "ook": False,
-          "method": "", "form": "none", "ns": [], "cls": "", "keys": []}
+          "method": "", "form": "none", "ns": [], "nss": [], "cls": "",
+          "keys": []}
 
 
 def make_event(table, kind, op, data, headers=None, shape=None, exc="",
@@ -644,9 +680,20 @@ class Gen:
                        for _ in range(1 + r.randrange(6)))
 
     def ns(self):
+        """A namespace of one of the value classes of WireOpsImplOps!NsClasses:
+        plain (mostly), empty ('' or slashes only), gap (an empty component
+        between two others)."""
         r = self.r
         odd = 0 if self.clean_ns else 0.05
-        return "/".join(self.name(odd) for _ in range(1 + r.randrange(3)))
+        k = r.random()
+        if k < 0.06:
+            return r.choice(["", "", "/", "//"])
+        comps = [self.name(odd) for _ in range(1 + r.randrange(3))]
+        if k < 0.12:
+            comps.insert(1 + r.randrange(len(comps)), "")
+            if comps[-1] == "":
+                comps.append(self.name(0))
+        return "/".join(comps)
 
     def scalar(self, ty):
         r = self.r
@@ -1068,7 +1115,15 @@ def target_names(rng, hclass):
             return s
         return "".join(rng.choice(HDR_CLASSES["ascii"])
                        for _ in range(1 + rng.randrange(4)))
-    return {"ns": "/".join(pick("ns") for _ in range(1 + rng.randrange(2))),
+    nscomps = [pick("ns") for _ in range(1 + rng.randrange(2))]
+    k = rng.random()
+    if k < 0.08:                    # value class "empty" (NsClasses)
+        nscomps = [rng.choice(["", "", "/"])]
+    elif k < 0.16:                  # value class "gap"
+        nscomps.insert(1, "")
+        if len(nscomps) == 2:
+            nscomps.append(pick("ns"))
+    return {"ns": "/".join(nscomps),
             "cls": pick("cls"),
             "keys": list({pick("key").lower(): 0
                           for _ in range(1 + rng.randrange(2))}),
